@@ -19,7 +19,7 @@ RULE = (
     "Hypothesis draws a 2-d or 3-d grid (Cartesian / tensor with random spacings / structured triangles and "
     "tetrahedra / mixed triangle-quadrilateral polygons and their extrusion to prisms+hexahedra, no hanging "
     "nodes; interior-node perturbation up to 0.15 h where faces stay planar, affine maps and rigid rotations of "
-    "3-d grids; 2-d grids in the xy-plane), constant Lame parameters mu in [0.5,3], lambda in [0.1,3], a "
+    "3-d grids; gmsh simplices in the thorough tier; 2-d grids in the xy-plane), constant Lame parameters mu in [0.5,3], lambda in [0.1,3], a "
     "linear displacement field u = c + G x (general, symmetric, skew = rigid rotation, volumetric, G = 0 = "
     "translation) and a per-face Dirichlet/Neumann assignment from the admissible classes of the property: "
     "all Dirichlet; 2-d any mix (incl. all Neumann, one Dirichlet face); 3-d mix built greedily so that no two "
@@ -30,7 +30,7 @@ RULE = (
     "asserted (not claimed). Non-trivial = >= 2 cells, G != 0 and (a Neumann face present, or a grid that is "
     "not an unperturbed Cartesian one); distinct = hash of spec."
 )
-BUDGET = {"quick": {"cases": 300, "seconds": 40}, "thorough": {"cases": 9000, "seconds": 1200}}
+BUDGET = {"quick": {"cases": 400, "seconds": 40}, "thorough": {"cases": 6000, "seconds": 1000}}
 TECHNIQUE = "property-based testing (Hypothesis): analytic oracle (linear elasticity patch test) on generated grids and boundary-type assignments"
 LEVEL_TEXT = ("Exploration: hundreds (quick) to thousands (thorough) of generated combinations of grid family, "
               "geometry variation, Lame parameters, linear displacement field and admissible per-face "
@@ -49,7 +49,7 @@ ASSUMPTIONS = [
 ]
 REQUIRED = {"dim2": 0.2, "dim3": 0.2, "neumann-present": 0.3, "bc-all_dir": 0.08, "bc-mix": 0.3,
             "field-rotation": 0.05, "field-translation": 0.05, "field-general": 0.15,
-            "kind-tri": 0.03, "kind-tet": 0.03, "kind-poly": 0.03, "kind-polyx": 0.03, "perturbed": 0.05}
+            "kind-tri": 0.02, "kind-tet": 0.01, "kind-poly": 0.02, "kind-polyx": 0.01, "perturbed": 0.05}
 
 FINDING_MIXED_FACES = "C13-mpsa-neumann-rhs-mixed-face-node-counts"
 
@@ -69,7 +69,8 @@ KNOWN = {FINDING_MIXED_FACES: _known_mixed_face_nodes}
 @st.composite
 def _spec(draw, tier):
     thorough = tier == "thorough"
-    g = draw(fm.mech_grid_spec(poly=True, max_amp=0.15, max_n=5 if thorough else 4, max_n3=3 if thorough else 2))
+    g = draw(fm.mech_grid_spec(poly=True, max_amp=0.15, max_n=5 if thorough else 4, max_n3=3 if thorough else 2,
+                                gmsh=thorough))
     if "merge" in g:
         # merged quads give hexagons with hanging nodes: collinear faces of one cell in a vertex make
         # the local systems singular (method limitation) -> keep triangles and quadrilaterals only
